@@ -13,6 +13,37 @@ claim("C19",
       "Closed() first. Near-sufficient for the sequential property by induction on nesting depth; structural, not behavioural.",
       "Not decided: concurrent Close calls, String() on cyclic Unwrap chains, the underlying resources' own Close.")
 
+claim("C02",
+      "accept-loop shape analysis over SSA + synchronous call cone; field-type and receiver-store scan; critical-section cone",
+      "Decides structural necessary conditions of per-stream independence on every path: neither the server's per-session stream "
+      "accept loop nor the client's local accept loop synchronously runs anything that can wait on the accepted stream (call cone "
+      "to blocking primitives); Channel implementations hold no connection state and OpenConnection never stores into its receiver; "
+      "no OpenStream / protocol selection inside the upstream mutex. Does not decide scheduling, smux flow control or byte isolation inside smux.",
+      "Not decided: fairness, smux's shared receive buffer, the multistream/smux first-frame race.")
+
+claim("C14",
+      "channel send/receive/capacity counting on SSA, close-on-all-paths (with defers and callers), accept-loop error-edge path enumeration",
+      "Decides the structural conditions without which finished connections leave residue, on all paths: every completion-report channel "
+      "can absorb all reports of its sender goroutines (capacity + guaranteed receives >= sends); after PipeData both ends are closed on "
+      "every path (inside it, or in each caller, its defers, or its callers); after a failed AcceptStream no path returns to AcceptStream "
+      "without return / liveness test / back-off. Does not measure goroutines, descriptors or CPU.",
+      "Not decided: measured footprint, library goroutines, carrier left open after a failed handshake.")
+
+claim("C15",
+      "accept-loop shape analysis over SSA + synchronous call cone to blocking primitives",
+      "Decides, for every listener accept loop of package server (socket, DNS-over-socket, KCP/UDP), that no call inside the loop that "
+      "receives the accepted connection can wait for that peer (handshake read, TLS handshake, any Read) unless it is started with go; "
+      "lists every Server implementation and how its peers arrive. Structural necessary condition for 'a stalled peer delays only itself'.",
+      "Not decided: fairness under load, time bounds, tls.Listen's lazy handshake; net/http's per-request goroutine is trusted.")
+
+claim("C17",
+      "dominance of close calls by completion receives, send-after-copy path counting, path-fact rule on EOF returns, event ordering in Close",
+      "Decides the ordering facts behind 'all data, then end-of-stream': in PipeData no close precedes a copier's completion report; a copier "
+      "reports exactly once after io.Copy* and io.EOF only when the copy returned nil; both ends are closed after the pipe ends; the DNS "
+      "tunnel's Read methods return io.EOF only under HasData()==false; the DNS client's Close sends the final ack and the Closed option "
+      "before closing its communicator on every live-session path. Structural, not a delivery proof.",
+      "Not decided: timing, half-close, smux FIN ordering, waking a reader blocked in the DNS in-queue.")
+
 for pid in ["C01","C02","C03","C04","C05","C06","C07","C08","C09","C10","C11","C12","C13","C14","C15","C16","C17","C18"]:
     if pid not in P:
         na(pid, PENDING)
